@@ -1,4 +1,5 @@
 import PikaVerif.Model.BulkPlan
+import PikaVerif.Model.Bulk
 import Driver.Util
 /-!
 Driver for the bulk arithmetic / live runs (C11).
@@ -99,6 +100,63 @@ def runArith (c : Case) (ls : List Line) : Res :=
   let (r, rest) := ops.foldl (fun (acc : Res × List Line) op => checkOp acc.1 op acc.2) ({}, res)
   if rest.isEmpty then r else r.fail s!"{rest.length} unexpected result lines"
 
+
+/-! ### protocol acceptor on the live trace -/
+
+structure PState where
+  st : Bulk.St
+  task : Nat → Option Nat := fun _ => none      -- OS thread -> worker task it is running
+  pend : Nat → Bool := fun _ => false            -- CAS in flight
+  skipNext : Nat → Bool := fun _ => false        -- the next `ciq.iter` repeats the load
+  nev : Nat := 0
+  err : Option String := none
+  decs : Nat := 0
+  lasts : Nat := 0
+
+def PState.fail (p : PState) (m : String) : PState := if p.err.isSome then p else { p with err := some m }
+
+def PState.ev (p : PState) (e : Bulk.Ev) (raw : String) : PState :=
+  if p.err.isSome then p else
+  match Bulk.step p.st e with
+  | some s' => { p with st := s', nev := p.nev + 1 }
+  | none => p.fail s!"protocol model rejects event {p.nev} [{raw}]"
+
+/-- queue index of a hook object id (`bulk.initq` order) -/
+def qOf (qobjs : List Nat) (o : Nat) : Option Nat := qobjs.idxOf? o
+
+def protoStep (qobjs : List Nat) (p : PState) (l : Line) : PState :=
+  if p.err.isSome then p else
+  let t := l.tid
+  match l.site with
+  | "bulk.spawn" => p.ev (.spawn l.a.toNat) l.raw
+  | "bulk.skip" => { p.ev (.skip l.a.toNat) l.raw with task := upd p.task t (some l.a.toNat) }
+  | "bulk.task" => { p.ev (.task l.a.toNat) l.raw with task := upd p.task t (some l.a.toNat) }
+  | "bulk.chunk" => p.ev (.chunk l.b.toNat l.a.toNat) l.raw
+  | "bulk.exc" => p.ev (.exc l.a.toNat) l.raw
+  | "bulk.last" => { p.ev (.dec l.a.toNat true) l.raw with decs := p.decs + 1, lasts := p.lasts + 1 }
+  | "bulk.notlast" => { p.ev (.dec l.a.toNat false) l.raw with decs := p.decs + 1 }
+  | "live.value" => p.ev (.sig false) l.raw
+  | "live.error" => p.ev (.sig true) l.raw
+  | "ciq.loaded" | "ciq.iter" | "ciq.ok" =>
+    match p.task t, qOf qobjs l.obj with
+    | some k, some q =>
+      let cur := p.st.qs q
+      if l.site == "ciq.ok" then
+        let j := if q == k then l.a.toNat - 1 else l.b.toNat
+        p.ev (.pop k q (some j)) l.raw
+      else if l.site == "ciq.iter" && p.skipNext t then
+        -- first loop iteration: repeats the loaded value (the live sink does not log the points,
+        -- so a later `ciq.iter` of the same operation is a failed compare-exchange)
+        { p with skipNext := upd p.skipNext t false }
+      else
+        -- a load, or a failed CAS: the observed range must be the model's current range
+        let p := { p with skipNext := upd p.skipNext t (l.site == "ciq.loaded") }
+        if ((cur.1 : Int), (cur.2 : Int)) != (l.a, l.b) then
+          p.fail s!"queue {q}: observed range ({l.a}, {l.b}) but the model has {cur} at [{l.raw}]"
+        else if l.a ≥ l.b then p.ev (.pop k q none) l.raw else p
+    | _, _ => p.fail s!"index-queue event outside a worker task or on an unknown queue [{l.raw}]"
+  | _ => p
+
 def find? (ls : List Line) (site : String) : Option Line := ls.find? (fun l => l.site == site)
 
 def count (xs : List Int) (x : Int) : Nat := (xs.filter (· == x)).length
@@ -157,6 +215,34 @@ def runLive (c : Case) (ls : List Line) : Res := Id.run do
         for j in planned do
           if !chunks.contains j then r := r.viol s!"chunk {j} was queued but never processed"
       modelCalls := some (totalCalls S w.toNat n cs)
+  -- ---- protocol acceptor: replay the trace through the Lean model `Bulk` ------------------------
+  if n != 0 then
+    match chunkSizeOf S fuel w n, find? ls "bulk.local" with
+    | some cs, some loc =>
+      let W := w.toNat
+      let ranges := (List.range W).map (fun (k : Nat) => queueRange S w n cs (k : Int))
+      let consecutive := (List.range (W - 1)).all (fun k => (ranges.getD k (0, 0)).2 == (ranges.getD (k + 1) (0, 0)).1)
+      let monotone := ranges.all (fun r => 0 ≤ r.1 && r.1 ≤ r.2)
+      if loc.a.toNat ≥ W || loc.a < 0 then
+        r := r.fail s!"set_value ran with local worker index {loc.a}, which is not a worker of the {W}-worker pool"
+      else if !(consecutive && monotone) then
+        r := r.fail s!"planned queue ranges {ranges} are not consecutive: outside the protocol model"
+      else
+        let cuts : Nat → Nat := fun k => if k < W then (ranges.getD k (0, 0)).1.toNat else (ranges.getD (W - 1) (0, 0)).2.toNat
+        let qobjs := (ls.filter (·.site == "bulk.initq")).map (·.obj)
+        let p0 : PState := { st := Bulk.init W loc.a.toNat cuts }
+        let tl := ls.dropWhile (fun l => l.site != "bulk.local")
+        let p := tl.foldl (protoStep qobjs) p0
+        match p.err with
+        | some m => r := r.fail m
+        | none =>
+          if p.st.signals != 1 || p.st.remaining != 0 then
+            r := r.fail s!"protocol model: run ended with remaining={p.st.remaining} signals={p.st.signals}"
+        let lasts := (tl.filter (·.site == "bulk.last")).length
+        let decs := lasts + (tl.filter (·.site == "bulk.notlast")).length
+        if decs != W then r := r.viol s!"{decs} decrements of the join counter initialised to {W}"
+        if lasts != 1 then r := r.viol s!"{lasts} participants saw the join counter reach 0"
+    | _, _ => pure ()
   -- ---- independent monitors on the observable summary ---------------------------------------
   let what := s!"bulk<{shapeName code}>(n={n}) on {w} workers"
   if vsig + esig != 1 then r := r.viol s!"{what}: receiver signalled {vsig} value(s) and {esig} error(s)"
